@@ -463,6 +463,17 @@ theorem C03_yankPop_total_wf (S : Segmenter) (U : UData) (k : Nat) (t : Text) (l
   unfold LB.yankPop
   simp [LM.bind_apply, LM.get, hng, hd, LM.setPos, hy]
 
+/-- `set_pos(a)` then `drain_around(a..b, cursor)` (the repaired whole-line / whole-buffer kills): total -/
+theorem C03_drainAround_total_wf (S : Segmenter) (U : UData) (a b c : Nat) (lb : LB)
+    (ha : IsBoundary lb.buf a) (hb : IsBoundary lb.buf b) (hc : IsBoundary lb.buf c) (hab : a ≤ b) :
+    ∃ y lb' ns, LB.setPosChecked S U a lb = .ok ((), { lb with pos := a }, []) ∧
+      LB.drainAround a b c { lb with pos := a } = .ok (y, lb', ns) ∧ WF lb' := by
+  obtain ⟨x, y, z, d, hd, hbuf, hx, _⟩ := drainAround_ok (lb := { lb with pos := a }) c ha hb hc hab
+  have hle : a ≤ lb.len := ha.le_len
+  refine ⟨y, _, _, by simp [LB.setPosChecked, hle], hd, ?_⟩
+  show IsBoundary (x ++ z) a
+  rw [hx]; exact isBoundary_mid x z
+
 /-- `kill(LineUp(n))` (dk; after the D2 repair): total -/
 theorem C03_kill_lineUp_total_wf (S : Segmenter) (U : UData) (n : Nat) (lb : LB) (h : WF lb) :
     ∃ r lb' ns, LB.kill S U (.lineUp n) lb = .ok (r, lb', ns) ∧ WF lb' := by
@@ -480,9 +491,9 @@ theorem C03_kill_lineUp_total_wf (S : Segmenter) (U : UData) (n : Nat) (lb : LB)
       · exact hls.boundary
     have hle : (if findChar '\n' s = none ∧ 0 < a then a - 1 else a) ≤ b := by
       split <;> omega
-    obtain ⟨lb', ns, hd, hwf⟩ := C03_deleteRange_total_wf S U _ b lb ha' hbb hle
+    obtain ⟨y, lb', ns, hsp, hd, hwf⟩ := C03_drainAround_total_wf S U _ b lb.pos lb ha' hbb h hle
     exact ⟨true, lb', [.startKill] ++ (ns ++ [.stopKill]),
-      by simp [LB.kill, LM.bind_apply, LM.notify, LM.ro, hr, LM.get, LM.lift, hsf, hd], hwf⟩
+      by simp [LB.kill, LM.bind_apply, LM.notify, LM.ro, hr, LM.get, LM.lift, hsf, hsp, hd], hwf⟩
 
 /-- `kill(LineDown(n))` (dj; after the D2 repair): total -/
 theorem C03_kill_lineDown_total_wf (S : Segmenter) (U : UData) (n : Nat) (lb : LB) (h : WF lb) :
@@ -501,9 +512,9 @@ theorem C03_kill_lineDown_total_wf (S : Segmenter) (U : UData) (n : Nat) (lb : L
       · exact hls.boundary
     have hle : (if (mid.filter (· == '\n')).length ≤ n ∧ 0 < a then a - 1 else a) ≤ b := by
       split <;> omega
-    obtain ⟨lb', ns, hd, hwf⟩ := C03_deleteRange_total_wf S U _ b lb ha' hbb hle
+    obtain ⟨y, lb', ns, hsp, hd, hwf⟩ := C03_drainAround_total_wf S U _ b lb.pos lb ha' hbb h hle
     exact ⟨true, lb', [.startKill] ++ (ns ++ [.stopKill]),
-      by simp [LB.kill, LM.bind_apply, LM.notify, LM.ro, hr, LM.get, LM.lift, hsl, hd], hwf⟩
+      by simp [LB.kill, LM.bind_apply, LM.notify, LM.ro, hr, LM.get, LM.lift, hsl, hsp, hd], hwf⟩
 
 /-- `copy` for EVERY movement (incl. the repaired `WholeLine` and `ViFirstPrint`): never panics from a
     well-formed state (it is read-only, so state and listener are untouched by construction) -/
@@ -930,10 +941,16 @@ theorem C03_kill_total_wf (S : Segmenter) (U : UData) (mvt : Movement) (lb : LB)
     have : LB.kill S U .endOfLine = killWrap (LB.killLine S U) := rfl
     rw [this]; exact killWrap_ok (C03_killLine_total_wf S U lb h)
   | wholeLine =>
-    obtain ⟨r1, lb1, h1, hwf1, _⟩ := C03_moveHome_total_wf S U lb h
-    obtain ⟨r2, lb2, ns2, h2, hwf2⟩ := C03_killLine_total_wf S U lb1 hwf1
-    exact ⟨r2, lb2, [.startKill] ++ ([] ++ ns2 ++ [.stopKill]),
-      by simp [LB.kill, LM.bind_apply, LM.notify, h1, h2], hwf2⟩
+    obtain ⟨r1, lb1, h1, hwf1, hbuf1⟩ := C03_moveHome_total_wf S U lb h
+    obtain ⟨e, he, hbe, hle⟩ := endOfLine_ok lb1 hwf1
+    by_cases hlt : lb1.pos < e
+    · obtain ⟨y, lb2, ns2, _, hd, hwf2⟩ := C03_drainAround_total_wf S U lb1.pos e lb.pos lb1 hwf1 hbe (by rw [hbuf1]; exact h) hle
+      have hd' : LB.drainAround lb1.pos e lb.pos lb1 = .ok (y, lb2, ns2) := hd
+      exact ⟨true, lb2, [.startKill] ++ ([] ++ ns2 ++ [.stopKill]),
+        by simp [LB.kill, LM.bind_apply, LM.notify, LM.get, LM.ro, h1, he, hlt, hd'], hwf2⟩
+    · obtain ⟨r2, lb2, ns2, h2, hwf2⟩ := C03_killLine_total_wf S U lb1 hwf1
+      exact ⟨r2, lb2, [.startKill] ++ ([] ++ ns2 ++ [.stopKill]),
+        by simp [LB.kill, LM.bind_apply, LM.notify, LM.get, LM.ro, h1, he, hlt, h2], hwf2⟩
   | beginningOfLine =>
     have : LB.kill S U .beginningOfLine = killWrap (LB.discardLine S U) := rfl
     rw [this]; exact killWrap_ok (C03_discardLine_total_wf S U lb h)
@@ -953,10 +970,20 @@ theorem C03_kill_total_wf (S : Segmenter) (U : UData) (mvt : Movement) (lb : LB)
     have : LB.kill S U .beginningOfBuffer = killWrap (LB.discardBuffer S U) := rfl
     rw [this]; exact killWrap_ok (C03_discardBuffer_total_wf S U lb h)
   | wholeBuffer =>
-    obtain ⟨r1, lb1, h1, hwf1, _⟩ := C03_moveBufferStart_total_wf S U lb
-    obtain ⟨r2, lb2, ns2, h2, hwf2⟩ := C03_killBuffer_total_wf S U lb1 hwf1
-    exact ⟨r2, lb2, [.startKill] ++ ([] ++ ns2 ++ [.stopKill]),
-      by simp [LB.kill, LM.bind_apply, LM.notify, h1, h2], hwf2⟩
+    have h1 : LB.moveBufferStart S U lb = .ok (decide (lb.pos > 0), { lb with pos := 0 }, []) := by
+      unfold LB.moveBufferStart
+      by_cases hgt : lb.pos > 0
+      · simp [LM.bind_apply, LM.get, hgt, LM.setPos]
+      · have : lb.pos = 0 := by omega
+        simp [LM.bind_apply, LM.get, hgt]
+        cases lb; simp at this ⊢; exact this
+    by_cases hemp : lb.buf = []
+    · exact ⟨false, { lb with pos := 0 }, [.startKill] ++ ([] ++ [.stopKill]),
+        by simp [LB.kill, LM.bind_apply, LM.notify, LM.get, h1, hemp], isBoundary_zero _⟩
+    · obtain ⟨y, lb2, ns2, _, hd, hwf2⟩ := C03_drainAround_total_wf S U 0 (blen lb.buf) lb.pos lb (isBoundary_zero _)
+        (isBoundary_len lb.buf) h (Nat.zero_le _)
+      exact ⟨true, lb2, [.startKill] ++ ([] ++ ns2 ++ [.stopKill]),
+        by simp [LB.kill, LM.bind_apply, LM.notify, LM.get, h1, hemp, LB.len, hd], hwf2⟩
 
 /-- `indent` / dedent (vi `>` `<`; `amount : u8`) for EVERY movement, count, word definition and anchor:
     total from a well-formed state; the cursor, shifted along with its line, stays on a character
